@@ -2,6 +2,7 @@ package rules
 
 import (
 	"fmt"
+	"go/token"
 	"go/types"
 	"sort"
 	"strings"
@@ -233,6 +234,8 @@ func checkC15(c *Ctx) {
 		r.Bad("C15/ACTOR", "single-consumer", p.Pos(hubNew.Pos()), "Hub.opChan is received in %d functions; operations are FIFO only with a single consumer", len(recvFns))
 	}
 
+	c.c15RingWalks(hubFns)
+
 	// ---- D2..D4 over listener implementers
 	impls := c.listenerImpls()
 	r.Floor("C15/NOBLOCK/listener", "msghub.Listener implementers (non-test)", len(impls), 1)
@@ -338,6 +341,165 @@ func checkC15(c *Ctx) {
 	} else {
 		r.Bad("C15/ISOLATE", "hub-broadcast", p.Pos(hubNew.Pos()), "the hub calls Receive/Delete of each listener inline in its broadcast loop; since an implementer can block or panic there (see NOBLOCK/CLOSE-RACE/CLOSED-TEST), one listener can stall the hub or make the others miss the event")
 	}
+}
+
+// c15RingWalks: a hand-written walk over the history ring that ends when the cursor is back
+// at its start must inspect all N slots. With a = offset of the initial cursor from the
+// start S (0 or 1) the only complete shapes are: test after the advance (`p = p.Next();
+// p == S → stop`) starting at S itself; or test before the body starting at S.Next() with
+// S inspected separately (the shape of ring.Do). A top-tested loop starting at S.Next()
+// alone visits N−1 slots, one starting at S none.
+func (c *Ctx) c15RingWalks(hubFns []*ssa.Function) {
+	r, p := c.R, c.P
+	r.Rule("C15/HISTORY/full-cycle", "every loop in pkg/msghub that walks a *ring.Ring with Next() until it is back at its start and reads slot values inspects all N slots (bottom-tested from the start, or top-tested from start.Next() with the start inspected separately, or a counting loop bounded by Len())")
+	isRing := func(t types.Type) bool {
+		pt, ok := t.(*types.Pointer)
+		if !ok {
+			return false
+		}
+		n, ok := pt.Elem().(*types.Named)
+		return ok && n.Obj().Pkg() != nil && n.Obj().Pkg().Path() == "container/ring" && n.Obj().Name() == "Ring"
+	}
+	nextOf := func(v ssa.Value) ssa.Value {
+		if call, ok := v.(*ssa.Call); ok && eng.CalleeName(call.Common()) == "(*container/ring.Ring).Next" {
+			return call.Call.Args[0]
+		}
+		return nil
+	}
+	readsValue := func(node ssa.Value) []ssa.Instruction {
+		var out []ssa.Instruction
+		if node.Referrers() == nil {
+			return nil
+		}
+		for _, ref := range *node.Referrers() {
+			if fa, ok := ref.(*ssa.FieldAddr); ok && eng.FieldOfAddr(fa) != nil && eng.FieldOfAddr(fa).Name() == "Value" {
+				for _, r2 := range *fa.Referrers() {
+					if u, ok := r2.(*ssa.UnOp); ok && u.Op == token.MUL {
+						out = append(out, u)
+					}
+				}
+			}
+		}
+		return out
+	}
+	n := 0
+	for _, fn := range hubFns {
+		for _, b := range fn.Blocks {
+			for _, in := range b.Instrs {
+				phi, ok := in.(*ssa.Phi)
+				if !ok || !isRing(phi.Type()) || len(phi.Edges) != 2 {
+					continue
+				}
+				var init ssa.Value
+				adv := false
+				for _, e := range phi.Edges {
+					if nextOf(e) == ssa.Value(phi) {
+						adv = true
+					} else {
+						init = e
+					}
+				}
+				if !adv || init == nil {
+					continue
+				}
+				// nodes of this iteration: phi (offset 0) and every Next(phi) (offset 1)
+				var nodes []ssa.Value
+				nodes = append(nodes, phi)
+				for _, ref := range *phi.Referrers() {
+					if call, ok := ref.(*ssa.Call); ok && nextOf(call) == ssa.Value(phi) {
+						nodes = append(nodes, call)
+					}
+				}
+				inspects := 0
+				for _, nd := range nodes {
+					inspects += len(readsValue(nd))
+				}
+				if inspects == 0 {
+					continue // a cursor that is only moved
+				}
+				n++
+				cons := "walk@" + shortFn(fn)
+				// the start S and the offset a of the initial cursor
+				S, a := init, 0
+				if base := nextOf(init); base != nil {
+					S, a = base, 1
+				}
+				sameStart := func(v ssa.Value) bool {
+					if v == S || eng.SameLoadNoDom(v, S) {
+						return true
+					}
+					// two loads of the same struct field that this function never stores to
+					f := eng.LoadedField(v)
+					if f == nil || !eng.SameField(f, eng.LoadedField(S)) {
+						return false
+					}
+					return len(eng.StoresToField([]*ssa.Function{fn}, f)) == 0
+				}
+				top, bottom := false, false
+				for _, nd := range nodes {
+					for _, ref := range *nd.Referrers() {
+						bo, ok := ref.(*ssa.BinOp)
+						if !ok || (bo.Op != token.EQL && bo.Op != token.NEQ) {
+							continue
+						}
+						other := bo.Y
+						if bo.Y == nd {
+							other = bo.X
+						}
+						if !sameStart(other) {
+							continue
+						}
+						if nd == ssa.Value(phi) {
+							top = true
+						} else {
+							bottom = true
+						}
+					}
+				}
+				startInspected := len(readsValue(S)) > 0
+				switch {
+				case bottom && !top && a == 0:
+					r.Ok("C15/HISTORY/full-cycle", cons, p.InstrPos(phi), "advance-then-test walk starting at the start node: N slots")
+				case top && !bottom && a == 1 && startInspected:
+					r.Ok("C15/HISTORY/full-cycle", cons, p.InstrPos(phi), "test-then-body walk from start.Next() with the start inspected separately: N slots")
+				case top && !bottom && a == 1:
+					r.Bad("C15/HISTORY/full-cycle", cons, p.InstrPos(phi), "the walk starts at start.Next() and stops as soon as the cursor equals the start, which is never inspected: N−1 of N slots; an entry sitting in the skipped slot is never found (a deleted message stays in the history replayed to new listeners)")
+				case top && !bottom && a == 0:
+					r.Bad("C15/HISTORY/full-cycle", cons, p.InstrPos(phi), "the walk tests `cursor == start` before the first step from the start itself: it inspects nothing")
+				case bottom && a == 1:
+					r.Bad("C15/HISTORY/full-cycle", cons, p.InstrPos(phi), "advance-then-test walk starting at start.Next(): N−1 of N slots")
+				case !top && !bottom:
+					if c15CountedByLen(phi) {
+						r.Ok("C15/HISTORY/full-cycle", cons, p.InstrPos(phi), "counting loop bounded by Len()")
+					} else {
+						r.Undecided("C15/HISTORY/full-cycle", cons, p.InstrPos(phi), "ring walk whose termination is not a comparison of the cursor with its start nor a count up to Len(): completeness not decided")
+					}
+				default:
+					r.Undecided("C15/HISTORY/full-cycle", cons, p.InstrPos(phi), "ring walk tests the cursor both before and after the step: completeness not decided")
+				}
+			}
+		}
+	}
+	r.Floor("C15/HISTORY/full-cycle", "value-inspecting ring walks in pkg/msghub", n, 1)
+}
+
+// c15CountedByLen: the loop of phi also has an integer induction variable compared with
+// (*ring.Ring).Len().
+func c15CountedByLen(phi *ssa.Phi) bool {
+	for _, in := range phi.Block().Instrs {
+		q, ok := in.(*ssa.Phi)
+		if !ok || q == phi || q.Referrers() == nil {
+			continue
+		}
+		for _, ref := range *q.Referrers() {
+			if bo, ok := ref.(*ssa.BinOp); ok && bo.Op == token.LSS {
+				if call, ok := bo.Y.(*ssa.Call); ok && eng.CalleeName(call.Common()) == "(*container/ring.Ring).Len" {
+					return true
+				}
+			}
+		}
+	}
+	return false
 }
 
 // keyField recovers the field of a "field:" channel key from one of its ops.
